@@ -167,6 +167,23 @@ theorem cache_inv_flush (cache : Nat → Option Node) (t : Tree) (f : File) (hwf
   · intro i u n hu _
     simp at hu
 
+/-- `to_node_cache(roots)`: the cache a tree is opened with holds the roots it has just read from the store -/
+def cacheOf : List Node → (Nat → Option Node)
+  | [] => fun _ => none
+  | n :: ns => fun k => if k = n.index then some n else cacheOf ns k
+
+theorem cache_inv_open (f : File) (L : List Node) (h : ∀ n ∈ L, storeNode f n.index = some n) : CacheInv (cacheOf L) f := by
+  induction L with
+  | nil => intro _ _ hc; cases hc
+  | cons n ns ih =>
+    exact cache_inv_fill (cacheOf ns) f (ih (fun m hm => h m (List.mem_cons_of_mem _ hm))) n.index n (h n List.mem_cons_self)
+
+/-- unflushed nodes on slots where the store has nothing (an appended range) agree with the store -/
+theorem agree_of_fresh (t : Tree) (f : File) (h : ∀ i u, t.unflushed[i]? = some u → storeNode f i = none) : Agree t f := by
+  intro i u n hu hs
+  rw [h i u hu] at hs
+  cases hs
+
 /-- non-vacuity: the empty cache over any store, and a tree without unflushed nodes -/
 example (f : File) : CacheInv (fun _ => none) f := fun _ _ h => by cases h
 example (t : Tree) (f : File) : Agree { t with unflushed := {} } f := fun i u n hu _ => by simp at hu
